@@ -73,6 +73,53 @@ Ltac key2 x y k1 k2 :=
     | assert ((k1, y) <> (k1, k2)) by congruence ]
   | assert ((x, y) <> (k1, k2)) by congruence ].
 
+(* open one step: case analysis on the label and on every guard *)
+Ltac open_step H :=
+  unfold step in H;
+  match type of H with
+  | (if negb (alive ?p) then _ else _) = _ => destruct (alive p) eqn:Halive; cbn [negb] in H; [|discriminate H]
+  end;
+  match type of H with
+  | match ?l with LConnect _ => _ | _ => _ end = _ => destruct l
+  end;
+  repeat match type of H with
+  | (if ?b then _ else _) = Some _ => destruct b eqn:?; try discriminate H
+  | match ?x with _ => _ end = Some _ => destruct x eqn:?; try discriminate H
+  end;
+  inversion H; subst; clear H;
+  unfold set_conn, set_srv, set_req in *; cbn [ph listen inpoll known cst inmap notified polled busy pend rs queue hand running stopped earlypoll] in *.
+
+Ltac split_guards :=
+  repeat match goal with
+  | H : _ && _ = true |- _ => apply andb_true_iff in H; destruct H
+  | H : negb _ = true |- _ => apply negb_true_iff in H
+  | H : cstate_eqb _ _ = true |- _ => apply cstate_eqb_eq in H
+  | H : rstate_eqb _ _ = true |- _ => apply rstate_eqb_eq in H
+  | H : req_eqb _ _ = true |- _ => apply req_eqb_eq in H
+  | H : (_ =? _) = true |- _ => apply Nat.eqb_eq in H
+  | H : (_ =? _) = false |- _ => apply Nat.eqb_neq in H
+  end.
+
+(* split on whether a looked-up key is the updated key *)
+Ltac upd_cases :=
+  repeat first
+  [ match goal with
+    | |- context[upd _ ?k _ ?x] =>
+        destruct (Nat.eq_dec x k); [subst; rewrite ?upd_eq in * | rewrite ?(upd_neq _ _ k _ x) in * by assumption]
+    | H : context[upd _ ?k _ ?x] |- _ =>
+        destruct (Nat.eq_dec x k); [subst; rewrite ?upd_eq in * | rewrite ?(upd_neq _ _ k _ x) in * by assumption]
+    end
+  | match goal with
+    | |- context[upd2 _ ?k1 ?k2 _ ?x ?y] =>
+        destruct (Nat.eq_dec x k1); [subst; destruct (Nat.eq_dec y k2); [subst; rewrite ?upd2_eq in *
+          | rewrite ?(upd2_neq _ _ k1 k2 _ k1 y) in * by congruence]
+          | rewrite ?(upd2_neq _ _ k1 k2 _ x y) in * by congruence]
+    | H : context[upd2 _ ?k1 ?k2 _ ?x ?y] |- _ =>
+        destruct (Nat.eq_dec x k1); [subst; destruct (Nat.eq_dec y k2); [subst; rewrite ?upd2_eq in *
+          | rewrite ?(upd2_neq _ _ k1 k2 _ k1 y) in * by congruence]
+          | rewrite ?(upd2_neq _ _ k1 k2 _ x y) in * by congruence]
+    end ].
+
 Section Proofs.
 Variable W : nat.
 Variable cap : N.
@@ -105,32 +152,6 @@ Proof.
   intros s l s' [ls H] Hs. exists (ls ++ [l]). rewrite run_app, H. cbn. rewrite Hs. reflexivity.
 Qed.
 
-(* open one step: case analysis on the label and on every guard *)
-Ltac open_step H :=
-  unfold step in H;
-  match type of H with
-  | (if negb (alive ?p) then _ else _) = _ => destruct (alive p) eqn:Halive; cbn [negb] in H; [|discriminate H]
-  end;
-  match type of H with
-  | match ?l with LConnect _ => _ | _ => _ end = _ => destruct l
-  end;
-  repeat match type of H with
-  | (if ?b then _ else _) = Some _ => destruct b eqn:?; try discriminate H
-  | match ?x with _ => _ end = Some _ => destruct x eqn:?; try discriminate H
-  end;
-  inversion H; subst; clear H;
-  unfold set_conn, set_srv, set_req in *; cbn [ph listen inpoll known cst inmap notified polled busy pend rs queue hand running stopped earlypoll] in *.
-
-Ltac split_guards :=
-  repeat match goal with
-  | H : _ && _ = true |- _ => apply andb_true_iff in H; destruct H
-  | H : negb _ = true |- _ => apply negb_true_iff in H
-  | H : cstate_eqb _ _ = true |- _ => apply cstate_eqb_eq in H
-  | H : rstate_eqb _ _ = true |- _ => apply rstate_eqb_eq in H
-  | H : req_eqb _ _ = true |- _ => apply req_eqb_eq in H
-  | H : (_ =? _) = true |- _ => apply Nat.eqb_eq in H
-  | H : (_ =? _) = false |- _ => apply Nat.eqb_neq in H
-  end.
 
 (* ---------------------------------------------------------------------------------------------------------- *)
 (* Safety invariant: numInvoke (the ghost list busy) covers every request read and not answered; a connection is
@@ -153,25 +174,6 @@ Proof.
   split; intros; [congruence | contradiction].
 Qed.
 
-(* split on whether a looked-up key is the updated key *)
-Ltac upd_cases :=
-  repeat first
-  [ match goal with
-    | |- context[upd _ ?k _ ?x] =>
-        destruct (Nat.eq_dec x k); [subst; rewrite ?upd_eq in * | rewrite ?(upd_neq _ _ k _ x) in * by assumption]
-    | H : context[upd _ ?k _ ?x] |- _ =>
-        destruct (Nat.eq_dec x k); [subst; rewrite ?upd_eq in * | rewrite ?(upd_neq _ _ k _ x) in * by assumption]
-    end
-  | match goal with
-    | |- context[upd2 _ ?k1 ?k2 _ ?x ?y] =>
-        destruct (Nat.eq_dec x k1); [subst; destruct (Nat.eq_dec y k2); [subst; rewrite ?upd2_eq in *
-          | rewrite ?(upd2_neq _ _ k1 k2 _ k1 y) in * by congruence]
-          | rewrite ?(upd2_neq _ _ k1 k2 _ x y) in * by congruence]
-    | H : context[upd2 _ ?k1 ?k2 _ ?x ?y] |- _ =>
-        destruct (Nat.eq_dec x k1); [subst; destruct (Nat.eq_dec y k2); [subst; rewrite ?upd2_eq in *
-          | rewrite ?(upd2_neq _ _ k1 k2 _ k1 y) in * by congruence]
-          | rewrite ?(upd2_neq _ _ k1 k2 _ x y) in * by congruence]
-    end ].
 
 Lemma step_S_known : forall s l s', Safe s -> stepW s l = Some s' -> forall c, cst s' c <> CNone <-> In c (known s').
 Proof.
@@ -661,3 +663,248 @@ Proof. intros s Hr. apply (N_two s (reachable_Notif s Hr)). Qed.
 
 
 End Proofs.
+
+(* ---------------------------------------------------------------------------------------------------------- *)
+(* The code before fix 0e6f835 (early = true: the pool is released when the accept loop ends) violates the
+   progress clause: a request that was read and queued is never executed, its connection is never closed and
+   Shutdown can only end through its context. *)
+
+Lemma stuck_step : forall W cap early s l s' c r, reachable W cap early s ->
+  stopped s = true -> rs s c r = Queued -> step W cap early s l = Some s' ->
+  stopped s' = true /\ rs s' c r = Queued.
+Proof.
+  intros W cap early s l s' c0 r0 Hr Hst Hq H. destruct (reachable_Safe W cap early s Hr) as [J1 J2 J2' J3 J4 J5 J6 J7].
+  open_step H; split_guards; upd_cases; auto; try congruence.
+  subst. pose proof (J7 c r eq_refl). congruence.
+Qed.
+
+Lemma ph_drained_step : forall W cap early s l s', step W cap early s l = Some s' -> ph s' = SRetDrained ->
+  ph s = SRetDrained \/ l = LPollReturn.
+Proof.
+  intros W cap early s l s' H Hp.
+  open_step H; auto; try discriminate.
+Qed.
+
+Lemma stuck_forever : forall W cap early ls s s' c r, reachable W cap early s ->
+  stopped s = true -> rs s c r = Queued -> ph s <> SRetDrained -> run W cap early s ls = Some s' ->
+  reachable W cap early s' /\ rs s' c r = Queued /\ ph s' <> SRetDrained.
+Proof.
+  induction ls as [|l ls IH]; intros s s' c r Hr Hst Hq Hp H; cbn in H.
+  - inversion H. subst. auto.
+  - destruct (step W cap early s l) as [s1|] eqn:E; [|discriminate].
+    destruct (stuck_step W cap early s l s1 c r Hr Hst Hq E) as [Hst1 Hq1].
+    eapply (IH s1); eauto.
+    + eapply reachable_step; eauto.
+    + intros Hp1. destruct (ph_drained_step _ _ _ _ _ _ E Hp1) as [Hx | Hx]; [contradiction|]. subst l.
+      destruct (drained_return_sound W cap early s s1 Hr E) as [_ [_ Hu]].
+      specialize (Hu c r). rewrite Hq1 in Hu. discriminate.
+Qed.
+
+Definition release_before_drain : list label :=
+  [LConnect 0; LSend 0 0; LSend 0 1; LRead 0 0; LEnqueue 0 0; LRead 0 1; LEnqueue 0 1; LTake 0 0; LStart 0 0;
+   LShutdown; LAcceptExit; LPoolStop; LFinish 0 0].
+
+Theorem progress_refuted_with_early_release :
+  exists s, run 1 10 true init release_before_drain = Some s /\
+    unanswered (rs s 0 1) = true /\
+    forall ls s', run 1 10 true s ls = Some s' ->
+      rs s' 0 1 = Queued /\                      (* never executed *)
+      cst s' 0 <> CClosed /\                     (* its connection is never closed by the server *)
+      ph s' <> SRetDrained.                      (* Shutdown never returns drained: only its context ends it *)
+Proof.
+  destruct (run 1 10 true init release_before_drain) as [s|] eqn:E; [|vm_compute in E; discriminate].
+  exists s. split; [reflexivity|].
+  assert (Hr : reachable 1 10 true s) by (exists release_before_drain; exact E).
+  assert (Hst : stopped s = true) by (vm_compute in E; inversion E; reflexivity).
+  assert (Hq : rs s 0 1 = Queued) by (vm_compute in E; inversion E; reflexivity).
+  assert (Hph : ph s = SDown) by (vm_compute in E; inversion E; reflexivity).
+  split; [rewrite Hq; reflexivity|].
+  intros ls s' H.
+  destruct (stuck_forever 1 10 true ls s s' 0 1 Hr Hst Hq) as [Hr' [Hq' Hp']]; auto; [congruence|].
+  split; auto. split; auto.
+  intros Hc. destruct (answered_before_close 1 10 true s' Hr' 0 Hc 1) as [Hu _].
+  rewrite Hq' in Hu. discriminate.
+Qed.
+
+(* the same trace is not a trace of the repaired code: LPoolStop is refused while a connection is in the table *)
+Example release_before_drain_not_repaired : run 1 10 false init release_before_drain = None.
+Proof. vm_compute. reflexivity. Qed.
+
+(* The notification clause needs its hypothesis: a tick that begins while the listener is still up closes an idle
+   connection without the message (CloseIdles with isListenClosed = 0 skips sendCloseMsg and still closes). In the
+   code this needs the accept loop to miss the SetDeadline(now) wake-up for 500 ms (it re-arms its own accept
+   deadline between its isClosed test and Accept) — a window of microseconds that was not exhibited on the code. *)
+Theorem notification_needs_listener_down :
+  exists s, run 0 10 false init [LConnect 0; LShutdown; LPollBegin; LPollClose 0] = Some s /\
+            cst s 0 = CClosed /\ notified s 0 = false /\ earlypoll s = true.
+Proof. eexists. split; [vm_compute; reflexivity|]. cbn. auto. Qed.
+
+(* non-trivial instances of the hypotheses used above *)
+Example progress_hypotheses_instance :
+  exists s, run 2 10 false init [LConnect 0; LSend 0 0; LRead 0 0; LEnqueue 0 0; LShutdown; LAcceptExit; LPollBegin] = Some s /\
+            alive (ph s) = true /\ unanswered (rs s 0 0) = true /\ earlypoll s = false /\ (0 < 10)%N.
+Proof. eexists. split; [vm_compute; reflexivity|]. cbn. repeat split; reflexivity. Qed.
+
+(* ---------------------------------------------------------------------------------------------------------- *)
+(* Trace validation is sound: a trace accepted by [accepts] is explained by a run of the transition system of the
+   repaired code that ends with the process exit — so every theorem above holds of the explanation of every
+   recorded shutdown. *)
+Section AcceptsSound.
+Variable W : nat.
+Variable cap : N.
+Notation stepR := (step W cap false).
+Notation runR := (run W cap false).
+
+Definition reach (s s' : state) : Prop := exists ls, runR s ls = Some s'.
+
+Lemma reach_refl : forall s, reach s s.
+Proof. intros. exists []. reflexivity. Qed.
+
+Lemma reach_trans : forall a b c, reach a b -> reach b c -> reach a c.
+Proof. intros a b c [l1 H1] [l2 H2]. exists (l1 ++ l2). rewrite run_app, H1. exact H2. Qed.
+
+Lemma reach_step : forall s l s', stepR s l = Some s' -> reach s s'.
+Proof. intros. exists [l]. cbn. rewrite H. reflexivity. Qed.
+
+Lemma reach_try : forall s l, reach s (try W cap s l).
+Proof. intros. unfold try. destruct (stepR s l) eqn:E; [eapply reach_step; eauto | apply reach_refl]. Qed.
+
+Lemma reach_fold : forall A (f : state -> A -> state), (forall st x, reach st (f st x)) ->
+  forall l s, reach s (fold_left f l s).
+Proof.
+  intros A f Hf. induction l; intros; cbn; [apply reach_refl|].
+  eapply reach_trans; [apply Hf | apply IHl].
+Qed.
+
+Lemma reach_fold_opt : forall A (f : option state -> A -> option state),
+  (forall st x s', f (Some st) x = Some s' -> reach st s') -> (forall x, f None x = None) ->
+  forall l s s', fold_left f l (Some s) = Some s' -> reach s s'.
+Proof.
+  intros A f Hf Hn. induction l; intros s s' H; cbn in H.
+  - inversion H. apply reach_refl.
+  - destruct (f (Some s) a) as [s1|] eqn:E.
+    + eapply reach_trans; [eapply Hf; eauto | apply IHl; auto].
+    + exfalso. clear -H Hn. induction l; cbn in H; [discriminate|]. rewrite Hn in H. auto.
+Qed.
+
+Lemma reach_pump : forall s, reach s (pump W cap s).
+Proof.
+  intros. unfold pump. apply reach_fold. intros st c. destruct (pend st c); [apply reach_try | apply reach_refl].
+Qed.
+
+Lemma reach_settle : forall s e, reach s (settle W cap s e).
+Proof.
+  intros. unfold settle. apply reach_fold. intros st q.
+  destruct (rstate_eqb (rs st (fst q) (snd q)) Running); [apply reach_try | apply reach_refl].
+Qed.
+
+Lemma reach_ensure_read : forall s c r s', ensure_read W cap (Some s) c r = Some s' -> reach s s'.
+Proof.
+  intros s c r s' H. unfold ensure_read in H.
+  destruct (unanswered (rs s c r) || rstate_eqb (rs s c r) Answered).
+  - inversion H. apply reach_refl.
+  - destruct (stepR (pump W cap s) (LRead c r)) eqn:E; [|discriminate]. inversion H. subst.
+    eapply reach_trans; [apply reach_pump|]. eapply reach_trans; [eapply reach_step; eauto | apply reach_pump].
+Qed.
+
+Lemma reach_ensure_started : forall s e c r s', ensure_started W cap s e c r = Some s' -> reach s s'.
+Proof.
+  intros s e c r s' H. unfold ensure_started in H.
+  destruct (ensure_read W cap (Some s) c r) as [s1|] eqn:E1; [|discriminate].
+  apply reach_ensure_read in E1. eapply reach_trans; [exact E1|].
+  destruct (rstate_eqb (rs s1 c r) Running || rstate_eqb (rs s1 c r) Answered).
+  - inversion H. apply reach_refl.
+  - destruct (W =? 0).
+    + eapply reach_step; eauto.
+    + set (s2 := if length (running s1) <? W then s1 else settle W cap s1 e) in *.
+      assert (R2 : reach s1 s2) by (unfold s2; destruct (length (running s1) <? W); [apply reach_refl | apply reach_settle]).
+      destruct (stepR s2 (LTake c r)) as [s3|] eqn:E3; [|discriminate].
+      destruct (stepR s3 (LStart c r)) as [s4|] eqn:E4; [|discriminate]. inversion H. subst.
+      eapply reach_trans; [exact R2|]. eapply reach_trans; [eapply reach_step; eauto|].
+      eapply reach_trans; [eapply reach_step; eauto | apply reach_pump].
+Qed.
+
+Lemma reach_ensure_down : forall s, reach s (ensure_down W cap s).
+Proof. intros. unfold ensure_down. eapply reach_trans; apply reach_try. Qed.
+
+Lemma reach_poll_tick : forall s, reach s (poll_tick W cap s).
+Proof.
+  intros. unfold poll_tick. eapply reach_trans; [apply reach_ensure_down|]. eapply reach_trans; apply reach_try.
+Qed.
+
+Lemma reach_ensure_closed : forall s e c s', ensure_closed W cap s e c = Some s' -> reach s s'.
+Proof.
+  intros s e c s' H. unfold ensure_closed in H.
+  assert (G : forall s', (let s0 := settle W cap (pump W cap s) e in
+      let s1 := match cst s0 c with COpen => try W cap (try W cap s0 LShutdown) (LRecvExit c) | _ => s0 end in
+      let s2 := if polled s1 c then s1 else poll_tick W cap s1 in stepR s2 (LRecvClose c)) = Some s' -> reach s s').
+  { clear. intros s' H. cbv zeta in H.
+    eapply reach_trans; [apply reach_pump|]. eapply reach_trans; [apply reach_settle|].
+    set (s0 := settle W cap (pump W cap s) e) in *.
+    set (s1 := match cst s0 c with COpen => try W cap (try W cap s0 LShutdown) (LRecvExit c) | _ => s0 end) in *.
+    assert (R1 : reach s0 s1).
+    { unfold s1. destruct (cst s0 c); try apply reach_refl. eapply reach_trans; apply reach_try. }
+    eapply reach_trans; [exact R1|].
+    set (s2 := if polled s1 c then s1 else poll_tick W cap s1) in *.
+    assert (R2 : reach s1 s2) by (unfold s2; destruct (polled s1 c); [apply reach_refl | apply reach_poll_tick]).
+    eapply reach_trans; [exact R2|]. eapply reach_step; eauto. }
+  destruct (cst s c); try discriminate; auto.
+  inversion H. apply reach_refl.
+Qed.
+
+Lemma reach_obs_step : forall s e o s' e', obs_step W cap (s, e) o = Some (s', e') -> reach s s'.
+Proof.
+  intros s e o s' e' H. unfold obs_step in H.
+  destruct o.
+  - destruct (stepR s (LConnect c)) eqn:E; inversion H; subst. eapply reach_step; eauto.
+  - destruct (stepR s (LSend c r)) eqn:E; inversion H; subst. eapply reach_step; eauto.
+  - destruct (fold_left (fun st r => ensure_read W cap st c r) (seq 0 n) (Some s)) eqn:E; inversion H; subst.
+    eapply reach_fold_opt; [| |exact E].
+    + intros st x s2 Hx. cbn beta in Hx. eapply reach_ensure_read. exact Hx.
+    + reflexivity.
+  - destruct (ensure_started W cap s e c r) eqn:E; inversion H; subst. eapply reach_ensure_started; eauto.
+  - destruct (ensure_started W cap s e c r) eqn:E; [|discriminate].
+    destruct (rstate_eqb (rs s0 c r) Running); inversion H; subst. eapply reach_ensure_started; eauto.
+  - destruct (existsb (req_eqb (c, r)) e); [|discriminate].
+    destruct (rs s c r); try discriminate.
+    + destruct (stepR s (LFinish c r)) eqn:E; [|discriminate].
+      destruct (rstate_eqb (rs s0 c r) Answered); inversion H; subst.
+      eapply reach_trans; [eapply reach_step; eauto | apply reach_pump].
+    + inversion H. apply reach_refl.
+  - unfold ensure_notified in H. destruct (notified s c).
+    + inversion H. apply reach_refl.
+    + destruct (notified (poll_tick W cap s) c); inversion H; subst. apply reach_poll_tick.
+  - destruct (ensure_closed W cap s e c) eqn:E; inversion H; subst. eapply reach_ensure_closed; eauto.
+  - destruct (stepR s LShutdown) eqn:E; inversion H; subst. eapply reach_step; eauto.
+  - destruct (listen (ensure_down W cap s) =? 0); inversion H; subst. apply reach_ensure_down.
+  - unfold ensure_returned in H. destruct drained.
+    + destruct (fold_left _ (known s) (Some s)) as [s1|] eqn:E; [|discriminate].
+      destruct (stepR (poll_tick W cap s1) LPollReturn) eqn:E2; inversion H; subst.
+      eapply reach_trans.
+      * eapply reach_fold_opt; [| |exact E].
+        -- intros st x s2 Hx. cbn in Hx. destruct (inmap st x); [eapply reach_ensure_closed; eauto | inversion Hx; apply reach_refl].
+        -- reflexivity.
+      * eapply reach_trans; [apply reach_poll_tick | eapply reach_step; eauto].
+    + destruct (stepR (try W cap s LShutdown) LCtxExpire) eqn:E; inversion H; subst.
+      eapply reach_trans; [apply reach_try | eapply reach_step; eauto].
+  - destruct (stepR s LExit) eqn:E; inversion H; subst. eapply reach_step; eauto.
+Qed.
+
+Lemma reach_obs_run : forall tr s e s' e', obs_run W cap (s, e) tr = Some (s', e') -> reach s s'.
+Proof.
+  induction tr; intros s e s' e' H; cbn [obs_run] in H.
+  - inversion H. apply reach_refl.
+  - destruct (obs_step W cap (s, e) a) as [[s1 e1]|] eqn:E; [|discriminate].
+    eapply reach_trans; [eapply reach_obs_step; eauto | eapply IHtr; eauto].
+Qed.
+
+Theorem accepts_sound : forall tr, accepts W cap tr = true ->
+  exists ls s, runR init ls = Some s /\ ph s = SExited.
+Proof.
+  intros tr H. unfold accepts in H.
+  destruct (obs_run W cap (init, []) tr) as [[s e]|] eqn:E; [|discriminate].
+  destruct (reach_obs_run _ _ _ _ _ E) as [ls Hls].
+  exists ls, s. split; auto. destruct (ph s); try discriminate. reflexivity.
+Qed.
+
+End AcceptsSound.
